@@ -29,6 +29,10 @@ func mustPanic(f func()) (p bool) {
 
 // C17: entity dump/load.
 func caseC17(c *Ctx) {
+	if c.Mode == "big" {
+		caseBig(c)
+		return
+	}
 	cfg := GenCfg(c.R, 24)
 	p := DefaultProfile()
 	p.Steps = 60 + c.R.Intn(120)
